@@ -4,9 +4,11 @@
 package rt
 
 import (
+	"flag"
 	"fmt"
 	"os"
 	"path/filepath"
+	"runtime"
 	"sort"
 	"strconv"
 	"strings"
@@ -210,9 +212,121 @@ func scenario(o *fnutil.Out, work string, nkeys int, tplText string, tplParts []
 	o.Emit(ev)
 }
 
+// concurrent runs several connections (one goroutine and one sink each) through one real orchestrator at the same time, on
+// several processors; every connection sends batches of records of its own tuples, rounds times. The recording pipelines
+// note which tuples they received and how many records.
+func concurrent(o *fnutil.Out, nkeys int, tplText string, tplParts []any, conns [][]tuple, rounds int) {
+	runNo++
+	old := runtime.GOMAXPROCS(4)
+	defer runtime.GOMAXPROCS(old)
+	names := make([]string, nkeys+1)
+	keyFields := make([]string, nkeys)
+	for i := 0; i < nkeys; i++ {
+		names[i] = fmt.Sprintf("k%d", i+1)
+		keyFields[i] = names[i]
+	}
+	names[nkeys] = "msg"
+	schema := base.MustNewLogSchema(names)
+	type pipe struct {
+		id, tag string
+		got     map[string]tuple
+		n       int
+	}
+	var mu sync.Mutex
+	var pipes []*pipe
+	var wg sync.WaitGroup
+	start := func(_ logger.Logger, _ promreg.MetricCreator, input <-chan []*base.LogRecord, bufferID string, outputTag string, onStopped func()) {
+		p := &pipe{id: bufferID, tag: outputTag, got: map[string]tuple{}}
+		mu.Lock()
+		pipes = append(pipes, p)
+		mu.Unlock()
+		wg.Add(1)
+		go func() {
+			defer wg.Done()
+			for recs := range input {
+				for _, r := range recs {
+					k := strings.Join(r.Fields[:nkeys], "\x01")
+					if _, ok := p.got[k]; !ok {
+						p.got[k] = append(tuple(nil), r.Fields[:nkeys]...)
+					}
+					p.n++
+				}
+			}
+			onStopped()
+		}()
+	}
+	ev := map[string]any{"ev": "RTC", "res": "ok", "template": tplParts, "rounds": rounds}
+	cs := [][][][]int{}
+	for _, c := range conns {
+		a := [][][]int{}
+		for _, t := range c {
+			a = append(a, bl(t))
+		}
+		cs = append(cs, a)
+	}
+	ev["conns"] = cs
+	var pmu sync.Mutex
+	func() {
+		orc := obykeyset.NewOrchestrator(logger.Root(), schema, keyFields, tplText, promreg.NewMetricFactory(fmt.Sprintf("rtc%d_", runNo), nil, nil), start, nil)
+		barrier := make(chan struct{})
+		var cw sync.WaitGroup
+		for ci, c := range conns {
+			cw.Add(1)
+			go func(ci int, c []tuple) {
+				defer cw.Done()
+				defer func() {
+					if r := recover(); r != nil {
+						pmu.Lock()
+						ev["res"], ev["panic"] = "panic", fmt.Sprint(r)
+						pmu.Unlock()
+					}
+				}()
+				sink := orc.NewSink(fmt.Sprintf("conn%d", ci), base.ClientNumber(10+ci))
+				batch := []*base.LogRecord{}
+				for _, t := range c {
+					f := make(base.LogFields, nkeys+1)
+					copy(f, t)
+					f[nkeys] = "m"
+					batch = append(batch, schema.NewTestRecord1(f))
+				}
+				<-barrier
+				for r := 0; r < rounds; r++ {
+					sink.Accept(batch)
+					if r%64 == 63 {
+						sink.Tick()
+					}
+				}
+				sink.Close()
+			}(ci, c)
+		}
+		close(barrier)
+		cw.Wait()
+		orc.Shutdown()
+		wg.Wait()
+	}()
+	ps := []any{}
+	mu.Lock()
+	for _, p := range pipes {
+		keys := []string{}
+		for k := range p.got {
+			keys = append(keys, k)
+		}
+		sort.Strings(keys)
+		got := [][][]int{}
+		for _, k := range keys {
+			got = append(got, bl(p.got[k]))
+		}
+		ps = append(ps, []any{fnutil.Bytes(p.id), fnutil.Bytes(p.tag), got, p.n})
+	}
+	mu.Unlock()
+	ev["pipelines"] = ps
+	o.Emit(ev)
+}
+
 // Main is the entry point of `vh rt`
 func Main(args []string) int {
-	o := fnutil.Open("rt", args, nil)
+	var only *string
+	o := fnutil.Open("rt", args, func(fs *flag.FlagSet) { only = fs.String("only", "", "conc: the concurrent scenarios only") })
 	logger.SetLogLevel(logger.FatalLevel)
 	defs.IntermediateChannelTimeout = 2e9
 	work, _ := os.MkdirTemp("/var/tmp", "verif-rt-")
@@ -227,6 +341,19 @@ func Main(args []string) int {
 	}
 	lit := func(s string) []any { return []any{0, fnutil.Bytes(s)} }
 	key := func(i int) []any { return []any{1, i} }
+	// several connections route at the same time (each shard runs a few rounds: the windows are narrow)
+	rounds := 3000
+	if o.Tier == "thorough" {
+		rounds = 40000
+	}
+	for rep := 0; rep < 3; rep++ {
+		concurrent(o, 1, "x-$k1", []any{lit("x-"), key(1)}, [][]tuple{{{"alpha"}}, {{"bravo"}}, {{"charlie"}, {"alpha"}}, {{"delta"}}}, rounds)
+		concurrent(o, 2, "t.$k1.$k2", []any{lit("t."), key(1), lit("."), key(2)}, [][]tuple{{{"a", "b"}}, {{"b", "a"}}, {{"a", "a"}, {"b", "b"}}, {{"a,b", ""}}}, rounds)
+	}
+	if *only == "conc" {
+		o.Close()
+		return 0
+	}
 	// nkeys = 2: all pairs of tuples, three tag templates
 	tpls2 := []struct {
 		text  string
